@@ -12,6 +12,7 @@ import (
 	"fmt"
 	"net"
 	"sort"
+	"strings"
 	"sync"
 	"testing"
 
@@ -88,8 +89,26 @@ func TestVerif_C09Remote(t *testing.T) {
 						be.RcptErr[w] = &smtp.SMTPError{Code: 550, EnhancedCode: smtp.EnhancedCode{5, 1, 1}, Message: "no such user"}
 						if r.chance(35) { // a connection-level refusal of this recipient
 							be.RcptErr[w] = &smtp.SMTPError{Code: 421, EnhancedCode: smtp.EnhancedCode{4, 4, 2}, Message: "closing the channel, try later"}
+						} else if !address.IsASCII(w) && (ci+ti)%2 == 0 {
+							// a server that advertises SMTPUTF8 and still refuses this spelling (it would take the A-label one)
+							be.RcptErr[w] = &smtp.SMTPError{Code: 553, EnhancedCode: smtp.EnhancedCode{5, 6, 7}, Message: "non-ASCII addresses not permitted for that recipient"}
+							stats["utf8-spelling-refused"]++
 						}
 						refused = append(refused, cBytes([]byte(w)))
+					}
+				}
+			}
+			if utf8 && domain != "example.invalid" && (ci+ti)%3 == 0 {
+				// a server that advertises SMTPUTF8 and still refuses the U-label spelling of one recipient
+				// whose local part is ASCII (it would take the A-label spelling)
+				for _, a := range rcpts {
+					if at := strings.LastIndexByte(a, '@'); at > 0 && address.IsASCII(a[:at]) {
+						if _, dup := be.RcptErr[a]; !dup {
+							be.RcptErr[a] = &smtp.SMTPError{Code: 553, EnhancedCode: smtp.EnhancedCode{5, 6, 7}, Message: "non-ASCII addresses not permitted for that recipient"}
+							refused = append(refused, cBytes([]byte(a)))
+							stats["utf8-spelling-refused-ascii-local"]++
+						}
+						break
 					}
 				}
 			}
